@@ -13,12 +13,15 @@ MOD = __name__
 
 RULE = ("forward: every input of C01's spaces that parse accepts (irregular ones included): pre-order walk of the reference "
         "generic tree and of Parser.result with a frozen (command|tag|match-type -> extension) table, each use must follow "
-        "a require naming it; converse: for generated VALID scripts, every required extension (and random subsets) is "
+        "a require naming it (a quarter of the parses are preceded by a hand-built require completed through the public "
+        "commands API, and the needed extensions are also offered as the lines of one multi-line capability string); converse: for generated VALID scripts, every required extension (and random subsets) is "
         "removed from the require commands and parse must return False with \"extension '<e>' not loaded\" for the first "
         "construct (reference token order) that needs a removed extension. Non-trivial = script uses >= 1 extension-bound "
         "construct; distinct by source.")
 
 EXTMAP = construct_extension_map()
+ALL_EXTS = ["fileinto", "reject", "envelope", "body", "vacation", "vacation-seconds", "copy", "mailbox",
+            "imap4flags", "relational", "regex", "date", "variables"]
 
 
 def walk_uses(nodes, loaded, out, depth=0, pos="top"):
@@ -71,7 +74,28 @@ def reused_parser():
     return _REUSED[0]
 
 
+def api_history(text):
+    """For a quarter of the inputs (chosen by the input's hash, so that a replay
+    does the same) the process does, just before parsing, what an application
+    building commands through the public commands API does: it completes a
+    hand-built require naming every extension, which is how that API allows
+    get_command_instance() to hand out extension commands.  What was loaded that
+    way must not count as the *script's* require."""
+    if core.h64(text) % 4:
+        return False
+    from sievelib import commands as C
+    req = C.get_command_instance("require")
+    req.check_next_arg("stringlist", ['"%s"' % e for e in ALL_EXTS])
+    req.complete_cb()
+    try:
+        C.get_command_instance("fileinto").check_next_arg("string", '"x"')
+    except Exception:  # noqa: BLE001 -- only the side effect matters here
+        pass
+    return True
+
+
 def forward(text):
+    api_history(text)
     o = impl.parse_outcome(text, parser=reused_parser())
     if o.verdict is not True or o.exc is not None:
         return "rejected", [], []
@@ -98,6 +122,8 @@ def forward(text):
 
 def _fwd(text, src, col):
     status, uses, fails = forward(text)
+    if core.h64(text) % 4 == 0:
+        col.classes["history:commands-api"] += 1
     if status == "rejected":
         col.case(classes=("rejected",))
         return
@@ -171,6 +197,7 @@ def converse_case(text, expected_ext=None):
     if r.verdict != INVALID or r.reason != "extension-not-loaded":
         return "skip", None
     ext = r.info
+    api_history(text)
     o = impl.parse_outcome(text, parser=reused_parser())
     if o.exc is not None:
         return "skip", None  # C02's business
@@ -205,6 +232,19 @@ def converse_worker(arg):
         if not used:
             col.case(classes=("converse:no-extension",))
             return
+        # the needed extensions named on the lines of ONE multi-line string: that is a
+        # single capability string (no extension has such a name), not several requires
+        if len(used) > 1 or data.draw(st.booleans()):
+            names = list(used) + data.draw(st.lists(st.sampled_from(ALL_EXTS), max_size=2))
+            order = data.draw(st.permutations(names))
+            ml = S.multiline("\n".join(order), data.draw(st.sampled_from([b"\n", b"\r\n"])))
+            rest = strip_exts(toks, set(ALL_EXTS))
+            form = data.draw(st.integers(0, 2))
+            head = [b"require", ml, b";"] if form == 0 else [b"require", b"[", ml, b"]", b";"] if form == 1 else \
+                [b"require", b"[", b'"comparator-i;octet"', b",", ml, b"]", b";"]
+            if len(order) > 1:
+                _fwd(S.canonical(head + rest), "reqlines", col)
+                col.classes["converse:require-lines"] += 1
         subsets = [[e] for e in used]
         if len(used) > 1:
             subsets.append(data.draw(st.lists(st.sampled_from(used), min_size=2, unique=True)))
@@ -250,15 +290,11 @@ def shrink(case, bucket, budget):
     return c
 
 
-ALL_EXTS = ["fileinto", "reject", "envelope", "body", "vacation", "vacation-seconds", "copy", "mailbox",
-            "imap4flags", "relational", "regex", "date", "variables"]
-
-
 def main(tier, seed, t0):
     quick = tier == "quick"
     col = pspace.run(MOD, tier, seed, overrides=dict(blind=2 if quick else 3))
     col.merge(core.run_shards(converse_worker, [(seed * 1000 + 400 + k, 200 if quick else 3000, 3 if quick else 5) for k in range(16)]))
-    need = ["ext:" + e for e in ALL_EXTS] + ["removed:" + e for e in ALL_EXTS] + ["pos:top", "pos:nested", "pos:testlist", "converse:ok"]
+    need = ["ext:" + e for e in ALL_EXTS] + ["removed:" + e for e in ALL_EXTS] + ["pos:top", "pos:nested", "pos:testlist", "converse:ok", "converse:require-lines", "history:commands-api"]
     missing = [c for c in need if not col.classes.get(c)]
     if missing:
         raise core.HarnessError("generator classes empty: %s" % missing)
